@@ -73,6 +73,8 @@ def run(tier, seed, rep):
         # more variants than a byte counts (identifier names only, so that the naming side conditions hold)
         cands.append(enum(did, [variant(IG.ids_for(did)[i], dis=(i % 11 == 3)) for i in range(280)], style="snake_case", prefix="p.")); did += 1
         cands.append(enum(did, [variant("Kb"), variant("KB"), variant("Mb")], style="lowercase")); did += 1
+        for rp, vals in (("u8", [2, 1, 0]), ("u16", [1, 0, 3, 2]), ("u8", [10, 11, 12])):
+            cands.append(enum(did, [variant(IG.IDS[i], disc=x) for i, x in enumerate(vals)], repr_=rp)); did += 1
         cands.append(enum(did, [variant("Low"), variant("Medium", ser=["High"]), variant("High"), variant("Max")])); did += 1
         cands.append(enum(did, [variant("A", ts="same"), variant("B", ts="same"), variant("C", dis=True, ts="same"), variant("D", ts="same")], prefix="p")); did += 1
         for k in range(sz["sampled"]):
